@@ -89,7 +89,11 @@ def gen_patch(rng, doc):
                 arrs = [p for p in paths if isinstance(node_at(cur.v, p), list)]
                 if arrs:
                     p = rng.choice(arrs)
-                    op = {b"op": b"add", b"path": ptr(p) + b"/" + str(len(node_at(cur.v, p)) + rng.choice([1, 2, 10])).encode(), b"value": None}
+                    n = len(node_at(cur.v, p))
+                    bad = rng.choice([str(n + rng.choice([1, 2, 10])), "+%d" % min(n, 1), "0%d" % min(n, 1), "1e0", " 0", "0 ", "-1", "18446744073709551616", "4294967296", "00", ""])
+                    op = {b"op": rng.choice([b"add", b"add", b"replace", b"remove", b"test"]), b"path": ptr(p) + b"/" + bad.encode(), b"value": None}
+                    if op[b"op"] == b"add" and bad == "" :
+                        op[b"op"] = b"replace"
             elif k < 0.6 and nonroot:
                 p = rng.choice(nonroot)
                 op = {b"op": b"test", b"path": ptr(p), b"value": b"certainly-not-this-value"}
@@ -158,8 +162,7 @@ def gen_patch(rng, doc):
             else:
                 p = rng.choice(paths)
                 v = copy.deepcopy(node_at(cur.v, p))
-                if not isinstance(v, float):
-                    op = {b"op": b"test", b"path": ptr(p), b"value": v}
+                op = {b"op": b"test", b"path": ptr(p), b"value": v}
         if op is None:
             continue
         if rng.random() < 0.1:
